@@ -151,6 +151,7 @@ def discharge(obs, workers=None, log=None):
       q.put((ob, path, None if vi == 0 else {'nlsat.shuffle_vars': True, 'nlsat.seed': vi}))
       n += 1
   lock = threading.Lock()
+  running = {}
 
   def loop():
     w = _Worker()
@@ -163,8 +164,10 @@ def discharge(obs, workers=None, log=None):
         if ob._done:
           ob._pending -= 1
           continue
+        running.setdefault(id(ob), []).append(w)
       r = w.solve(path, ob.timeout, ob.tactic, params=params)
       with lock:
+        running[id(ob)].remove(w)
         ob._pending -= 1
         if ob._done:
           continue
@@ -179,6 +182,8 @@ def discharge(obs, workers=None, log=None):
             ob.variant = params
         if decisive:
           ob._done = True
+          for w2 in list(running.get(id(ob), [])):      # the other variants of this obligation are no longer needed: stop their solver processes
+            w2.kill()
         if log and (decisive or ob._pending == 0):
           log(ob)
     w.kill()
